@@ -15,6 +15,7 @@ CONSTANTS
   ArmorHdrs = {}
   SigBools = {TRUE, FALSE}
   BigSel = {}
+  ArmorMaxFields = 3
   Emit = FALSE
 SPECIFICATION TSpec
 INVARIANT TEofRule
